@@ -221,6 +221,7 @@ type Scenario struct {
 	AnnualTemp   float64
 	PotMin       int
 	PrecipCorr   bool
+	AlwaysPreco  bool // write the monthly precipitation-correction table even if the correction is off (a batch line may switch it on)
 	PrecoFactors [12]float64
 	// WeatherFault (C04): the weather input does not cover the whole simulation ("", ends_early, gap, missing_year, starts_late)
 	WeatherFault string
